@@ -18,7 +18,14 @@ def CleanTail (stream : List Byte) : Prop :=
     made of whole cipher blocks -/
 theorem fed_is_prefix (bufBlocks : Nat) (segs : List (List Byte)) :
     ∃ k, (receiveBytes bufBlocks segs).fed = segs.flatten.take (32 * k) := by
-  sorry
+  unfold receiveBytes
+  by_cases hcap : 0 < uwrap 32 (Gen.C.RSCP_CRYPT_BLOCK_SIZE * bufBlocks)
+  · obtain ⟨h1, h2⟩ := Lemmas.Receive.reads_spec _ hcap segs
+    obtain ⟨k, hk⟩ := Lemmas.Receive.recvLoop_fed _ ({} : RState) [] [] h2 rfl
+    exact ⟨k, by rw [hk, h1]; rfl⟩
+  · have h0 : uwrap 32 (Gen.C.RSCP_CRYPT_BLOCK_SIZE * bufBlocks) = 0 := Nat.eq_zero_of_not_pos hcap
+    rw [h0, Lemmas.Receive.reads_zero]
+    exact ⟨0, rfl⟩
 
 /-- For every way the transport delivers the bytes of a reply and every receive-buffer size, the client returns
     what it returns when the reply arrives in one piece. -/
@@ -27,13 +34,26 @@ theorem segmentation_invariant (b₁ b₂ : Nat) (hb₁ : 0 < b₁ ∧ b₁ ≤ 
     (hcat : segs₁.flatten = segs₂.flatten) (hclean : CleanTail segs₁.flatten) :
     (receiveBytes b₁ segs₁).result = (receiveBytes b₂ segs₂).result ∧
     (receiveBytes b₁ segs₁).disconnected = (receiveBytes b₂ segs₂).disconnected := by
-  sorry
+  have hc₁ : ∀ cf fs ds, readHeader (segs₁.flatten.take 32) = .ok (cf, fs, ds) →
+      (segs₁.flatten.drop fs).all (· == 0) = true :=
+    fun cf fs ds h => Lemmas.Receive.all_zero_of_getD _ _ (hclean cf fs ds h)
+  have h₁ := Lemmas.Receive.receive_outcome b₁ hb₁ segs₁ hc₁
+  have h₂ := Lemmas.Receive.receive_outcome b₂ hb₂ segs₂ (hcat ▸ hc₁)
+  rw [← hcat, ← h₁] at h₂
+  exact ⟨(congrArg Prod.fst h₂).symm, (congrArg Prod.snd h₂).symm⟩
 
 /-- in particular: the result is that of the whole stream delivered at once into a buffer that holds it -/
 theorem one_piece (b : Nat) (hb : 0 < b ∧ b ≤ 2049) (segs : List (List Byte)) (hne : ∀ s ∈ segs, s ≠ [])
     (hnonempty : segs.flatten ≠ []) (hclean : CleanTail segs.flatten) :
     (receiveBytes b segs).result = (receiveBytes 2049 [segs.flatten]).result := by
-  sorry
+  have hc : ∀ cf fs ds, readHeader (segs.flatten.take 32) = .ok (cf, fs, ds) →
+      (segs.flatten.drop fs).all (· == 0) = true :=
+    fun cf fs ds h => Lemmas.Receive.all_zero_of_getD _ _ (hclean cf fs ds h)
+  have e : [segs.flatten].flatten = segs.flatten := by rw [List.flatten_cons, List.flatten_nil, List.append_nil]
+  have h₁ := Lemmas.Receive.receive_outcome b hb segs hc
+  have h₂ := Lemmas.Receive.receive_outcome 2049 ⟨by omega, Nat.le_refl _⟩ [segs.flatten] (e.symm ▸ hc)
+  rw [e, ← h₁] at h₂
+  exact (congrArg Prod.fst h₂).symm
 
 /-- a complete well-formed reply is returned however it is cut: if the stream is a frame the decoder accepts
     with a non-empty message list, every delivery yields exactly those messages -/
@@ -41,10 +61,24 @@ theorem complete_reply_returned (b : Nat) (hb : 0 < b ∧ b ≤ 2049) (segs : Li
     (m : Msg) (ms : List Msg) (hlen : 32 ≤ segs.flatten.length) (hmod : segs.flatten.length % 32 = 0)
     (hdec : decodeFrame segs.flatten = .ok (m :: ms)) :
     (receiveBytes b segs).result = .ok (m :: ms) ∧ (receiveBytes b segs).disconnected = false := by
-  sorry
+  obtain ⟨hc, ho⟩ := Lemmas.Receive.complete_outcome segs.flatten ⟨hlen, hmod⟩ m ms hdec
+  have h := Lemmas.Receive.receive_outcome b hb segs hc
+  rw [ho] at h
+  exact ⟨congrArg Prod.fst h, congrArg Prod.snd h⟩
 
 /-- the loop never panics -/
 theorem receive_no_panic (bufBlocks : Nat) (segs : List (List Byte)) : (receiveBytes bufBlocks segs).result ≠ .panic := by
-  sorry
+  unfold receiveBytes
+  by_cases hcap : 0 < uwrap 32 (Gen.C.RSCP_CRYPT_BLOCK_SIZE * bufBlocks)
+  · exact Lemmas.Receive.recvLoop_no_panic _ ({} : RState) [] [] (Lemmas.Receive.reads_spec _ hcap segs).2
+      Model.Reachable.init
+  · have h0 : uwrap 32 (Gen.C.RSCP_CRYPT_BLOCK_SIZE * bufBlocks) = 0 := Nat.eq_zero_of_not_pos hcap
+    rw [h0, Lemmas.Receive.reads_zero]
+    intro h; cases h
 
+#print axioms fed_is_prefix
+#print axioms segmentation_invariant
+#print axioms one_piece
+#print axioms complete_reply_returned
+#print axioms receive_no_panic
 end Rscp.Props.C07
